@@ -1,12 +1,24 @@
+//! hashes family (C16): digests under arbitrary write chunkings, and the quantities the
+//! sketches derive from an item's digest, observed through the public API.
+use datasketches::bloom::BloomFilterBuilder;
+use datasketches::countmin::CountMinSketch;
+use datasketches::hll::{HllSketch, HllType};
+use datasketches::theta::ThetaSketch;
 use datasketches::verif;
 
 use crate::{Family, Ob, PANIC};
 
-/// cfg = [] ; ops:
-///  1 seed n_chunks len_1 .. len_n bytes...  -> murmur (h1, h2) with the bytes split into the chunks
-///  2 seed n_chunks len_1 .. len_n bytes...  -> xxh64
-///  3 input seed                             -> XxHash64::hash_u64
-///  4 seed                                   -> compute_seed_hash
+/// Every op carries the generator's reference answer in front: a = m, e_1..e_m, real args.
+/// ops (real args):
+///  1 seed n len_1..len_n bytes..  -> murmur (h1, h2), bytes written in n chunks
+///  2 seed n len_1..len_n bytes..  -> xxh64
+///  3 input seed                   -> XxHash64::hash_u64
+///  4 seed                         -> compute_seed_hash
+///  5 item                         -> HLL coupon of the item (list-mode image of a 1-item sketch)
+///  6 seed item                    -> theta retained hash
+///  7 seed nh nb item              -> Count-Min bucket per row
+///  8 seed num_bits num_hashes item-> Bloom bit positions (sorted, distinct)
+/// item = kind payload: 0 i64 | 1 ascii string bytes | 2 (u64, u64)
 pub struct Hashes;
 
 fn chunks(a: &[i128]) -> Vec<Vec<u8>> {
@@ -23,12 +35,37 @@ fn chunks(a: &[i128]) -> Vec<Vec<u8>> {
     out
 }
 
+enum Item {
+    I(i64),
+    S(String),
+    P((u64, u64)),
+}
+
+fn item(a: &[i128]) -> Item {
+    match a[0] {
+        0 => Item::I(a[1] as i64),
+        1 => Item::S(String::from_utf8(a[1..].iter().map(|x| *x as u8).collect()).unwrap()),
+        _ => Item::P((a[1] as u64, a[2] as u64)),
+    }
+}
+
+macro_rules! with_item {
+    ($it:expr, $v:ident, $body:expr) => {
+        match $it {
+            Item::I($v) => $body,
+            Item::S($v) => $body,
+            Item::P($v) => $body,
+        }
+    };
+}
+
 impl Family for Hashes {
     fn new(_cfg: &[i128]) -> Self {
         Hashes
     }
 
-    fn step(&mut self, code: i64, a: &[i128]) -> Ob {
+    fn step(&mut self, code: i64, a0: &[i128]) -> Ob {
+        let a = &a0[1 + a0[0] as usize..];
         match code {
             1 => {
                 let c = chunks(a);
@@ -43,6 +80,47 @@ impl Family for Hashes {
             }
             3 => vec![verif::xxhash64_u64(a[0] as u64, a[1] as u64) as i128],
             4 => vec![verif::compute_seed_hash(a[0] as u64) as i128],
+            5 => {
+                let mut s = HllSketch::new(12, HllType::Hll8);
+                with_item!(item(a), v, s.update(v));
+                let b = s.serialize();
+                vec![u32::from_le_bytes([b[8], b[9], b[10], b[11]]) as i128]
+            }
+            6 => {
+                let mut s = ThetaSketch::builder().lg_k(5).seed(a[0] as u64).build();
+                with_item!(item(&a[1..]), v, s.update(v));
+                s.iter().map(|h| h as i128).collect()
+            }
+            7 => {
+                let (nh, nb) = (a[1] as u8, a[2] as u32);
+                let mut s = CountMinSketch::<u64>::with_seed(nh, nb, a[0] as u64);
+                with_item!(item(&a[3..]), v, s.update(v));
+                let b = s.serialize();
+                let mut out = vec![];
+                for r in 0..nh as usize {
+                    for c in 0..nb as usize {
+                        let off = 24 + 8 * (r * nb as usize + c);
+                        if b[off] != 0 {
+                            out.push(c as i128);
+                        }
+                    }
+                }
+                out
+            }
+            8 => {
+                let mut f = BloomFilterBuilder::with_size(a[1] as u64, a[2] as u16).seed(a[0] as u64).build();
+                with_item!(item(&a[3..]), v, f.insert(v));
+                let b = f.serialize();
+                let mut out = vec![];
+                for (i, byte) in b[32..].iter().enumerate() {
+                    for bit in 0..8 {
+                        if byte & (1 << bit) != 0 {
+                            out.push((i * 8 + bit) as i128);
+                        }
+                    }
+                }
+                out
+            }
             _ => vec![PANIC],
         }
     }
